@@ -478,6 +478,9 @@ func (env *Env) call(n *ast.CallExpr) Term {
 			v := env.ev(n.Args[0])
 			u.clockVar()
 			return boolT(or(eq(app("s_base", v.S), "0"), and(app(">=", app("s_base", v.S), env.old.get("clock")), app("<", app("s_base", v.S), env.heap.get("clock")), eq(app("s_off", v.S), "0"))))
+		case "samerow":
+			a, b := env.ev(n.Args[0]), env.ev(n.Args[1])
+			return boolT(eq(app("s_base", a.S), app("s_base", b.S)))
 		case "disjoint":
 			// two slices do not share a backing row
 			a, b := env.ev(n.Args[0]), env.ev(n.Args[1])
@@ -507,6 +510,9 @@ func (env *Env) call(n *ast.CallExpr) Term {
 		case "unchanged":
 			// unchanged(F) for a heap class: value equals the pre-state value
 			name := exprString(n.Args[0])
+			if bl, ok := n.Args[0].(*ast.BasicLit); ok && bl.Kind == token.STRING {
+				name, _ = strconv.Unquote(bl.Value)
+			}
 			vars, _ := env.e.p.expandAssigns(u, []string{name})
 			var cs []string
 			for _, v := range vars {
